@@ -689,6 +689,9 @@ pub(crate) async fn fashare(
             if !open_commitment(&commitments.0, d_bj) && !open_commitment(&commitments.1, d_bj) {
                 return Err(Error::CommitmentCouldNotBeOpened);
             }
+            if !open_commitment(&commitments.2, &dm_k[k][r]) {
+                return Err(Error::CommitmentCouldNotBeOpened);
+            }
             if xor_xk_macs[k][r] != di_bi_k[k][r] {
                 return Err(Error::AShareWrongMAC);
             }
